@@ -23,7 +23,7 @@ LEVEL = "exploration"
 BATCH = 1
 TIMEOUT = 600
 REQUIRED_OBS = ["renorm_calls_checked", "ratios_checked", "identity_checked", "electron_checked", "backend_dense", "backend_odeint", "tag_grain_species",
-                "tag_ice_species", "tag_deuterated", "opt0_references", "opt1_references", "second_renorm_calls_checked"]
+                "tag_ice_species", "opt0_references", "opt1_references", "second_renorm_calls_checked"]
 RULE = ("balanced-by-construction networks (multi-element molecules, D isotopologues, ions, electrons, ice species, optionally grain species "
         "GRAIN0/GRAIN-/GRAIN+) completed with the atomic species of every element; 8 random positive abundance vectors per case (6 "
         "decades inside a vector, overall scale over 30 decades), reference ratios from element totals (opt 0) and from another species "
